@@ -17,6 +17,7 @@ func init() {
 			"runningCount counts exactly the nodes whose status is running, over all nodes (C15.count-table)",
 			"the loop flips the node to running before the go statement, so the next count sees it (C01.flip-first shared); a step sleeping out its retry interval is still running (C01.retry-reset-late shared)",
 			"running is stored into a graph node only by the loop goroutine (C15.running-writers)",
+			"a node stays running for as long as its command runs: Node.Execute invokes the executor's Run itself and returns after it, never from a goroutine it merely starts (C15.slot-held-while-running)",
 		},
 		NotDec: []string{"the instantaneous number of OS processes", "that the limit never prevents completion (liveness)", "interleavings of count and flip with worker completions (the count can only be stale-high)"},
 	})
@@ -34,6 +35,7 @@ func runC15(e *Env) {
 	c01FlipFirst(e, s)
 	c01RetryResetLate(e, s)
 	c15RunningWriters(e, s)
+	cSyncRun(e, s, "C15.slot-held-while-running")
 }
 
 func c15Gate(e *Env, s *Sched) {
